@@ -328,6 +328,24 @@ def gen_tools():
 
 
 FALLBACK = {
+    "Steps.lean": """-- GENERATED (fallback: extraction failed: %s)
+import PteraModel.Model.Sched
+namespace Ptera.Generated.Steps
+open Ptera.Sched
+def toolerLines : List (String × Nat × List Step) := []
+def untoolerLines : List (String × Nat × List Step) := []
+end Ptera.Generated.Steps
+""",
+    "Tables.lean": """-- GENERATED (fallback: extraction failed: %s)
+namespace Ptera.Generated.Tables
+def operators : List (String × Int × Int) := []
+def lexerDefs : List (String × String) := []
+def evaluateActions : List (String × String) := []
+def valueEvaluateActions : List (String × String) := []
+def validHashvars : List String := []
+def standardInfo : List (String × String) := []
+end Ptera.Generated.Tables
+""",
     "Tools.lean": """-- GENERATED (fallback: extraction failed: %s)
 import PteraModel.Model.PyVal
 namespace Ptera.Generated.Tools
@@ -341,11 +359,10 @@ def main():
     sys.path.insert(0, REPO)
     results = {}
     gens = [("Tools.lean", gen_tools)]
-    try:
-        from extract_tables import GENS as more
-        gens += more
-    except ImportError:
-        pass
+    from extract_tables import GENS as more
+    gens += more
+    from extract_steps import GENS as more2
+    gens += more2
     status = 0
     for fname, fn in gens:
         try:
